@@ -327,7 +327,7 @@ func c12Serve(conn net.Conn, answer []byte) {
 type c12Out struct {
 	panicked string
 	err      error
-	payload  kmip.OperationPayload   // request / exec
+	payload  kmip.OperationPayload    // request / exec
 	items    []kmip.ResponseBatchItem // batch
 	unwrapPl []kmip.OperationPayload
 	unwrapEr error
